@@ -243,6 +243,17 @@ func runC14(c *Ctx, r *Report) {
 				}
 			}
 		})
+		// slices.Sorted(maps.Keys(m)): collection and sort in one expression
+		eachInstr(sg, func(in ssa.Instruction) {
+			if call, ok := in.(*ssa.Call); ok && strings.HasPrefix(stdName(call), "slices.Sorted") && len(call.Common().Args) == 1 {
+				if kc, ok := call.Common().Args[0].(*ssa.Call); ok && strings.HasPrefix(stdName(kc), "maps.Keys") {
+					sortCall = call
+					if rng == nil {
+						rng = &ssa.Range{}
+					}
+				}
+			}
+		})
 		okSorted := rng != nil && sortCall != nil
 		if okSorted {
 			for _, w := range writes {
